@@ -79,17 +79,15 @@ struct SpinBarrier {
 // every thread sweeps all cases on its own, starting at a different offset.
 //
 // schedule "fresh": no filling pass.  The sequential log comes from a run in
-// which every case builds its own operands; then all threads run the SAME case
+// which every case builds its own operands (made AFTER the threaded pass); all threads run the SAME case
 // in every phase and build the shared objects themselves (under a lock), so the
 // first use of every shared object - when lazily initialised state would be
 // filled - happens in all threads at once.  The use counts after the join are
 // compared with those of the same procedure run by a single thread.
 static int freshMain(int nthreads, const std::vector<std::string> &cases, const std::string &prefix,
                      void (*dump)(const std::string &, const std::vector<std::string> &)) {
-  opCache().mode = 0;
-  std::vector<std::string> seq;
-  for (const auto &c : cases) seq.push_back(runCase(c));
-  dump(prefix + ".seq", seq);
+  // The threaded pass comes FIRST in the life of this process: state that the library keeps per process
+  // (function-local statics, lazily grown tables) is cold when the threads meet it.
   auto pass = [&](int nt, std::vector<std::vector<std::string>> &outs) {
     opCache().objs.clear();
     opCache().gridAudits.clear();
@@ -115,6 +113,13 @@ static int freshMain(int nthreads, const std::vector<std::string> &cases, const 
   const std::vector<long> got = pass(nthreads, outs);
   for (int t = 0; t < nthreads; t++) dump(prefix + ".t" + std::to_string(t), outs[t]);
   const std::vector<long> want = pass(1, ref);
+  opCache().objs.clear();
+  opCache().gridAudits.clear();
+  opCache().refs.clear();
+  opCache().mode = 0;
+  std::vector<std::string> seq;
+  for (const auto &c : cases) seq.push_back(runCase(c));
+  dump(prefix + ".seq", seq);
   json q = json::array();
   if (got.size() != want.size()) q.push_back(json::array({static_cast<long>(got.size()), static_cast<long>(want.size())}));
   for (size_t i = 0; i < got.size() && i < want.size(); i++) q.push_back(json::array({got[i], want[i]}));
